@@ -1,6 +1,7 @@
 package harness
 
 import (
+	"encoding/json"
 	"fmt"
 	"math/rand"
 	"os"
@@ -33,6 +34,7 @@ type subCfg struct {
 }
 
 type subScn struct {
+	el    time.Duration // virtual time elapsed (absolute "advto" steps of TLC-generated scenarios)
 	s     *sim.S
 	cfg   subCfg
 	proto protocol.Protocol
@@ -191,8 +193,19 @@ func (c *subScn) step(st string) {
 	case "adv":
 		d, _ := time.ParseDuration(arg(1))
 		s.Adv(d)
+		c.el += d
 		c.snap()
 		return
+	case "advto":
+		// advto <seconds>: absolute virtual time (TLC-generated scenarios name the deadline they run into)
+		var sec int
+		fmt.Sscanf(arg(1), "%d", &sec)
+		if d := time.Duration(sec)*time.Second - c.el; d > 0 {
+			s.Adv(d)
+			c.el += d
+			c.snap()
+			return
+		}
 	case "cclose":
 		i := ci(arg(1))
 		if i > 0 {
@@ -373,10 +386,57 @@ func subDeadline() []subCfg {
 	return out
 }
 
+// subFromTLC loads the scenarios TLC generated from spec/mc/MC_SubScn.tla and picks a seeded sample.
+func subFromTLC(path string, rng *rand.Rand, n int) []subCfg {
+	sec := time.Second
+	mixes := map[string]subCfg{
+		"q5": {NCtx: 2, QLen: []int{1, 2}, RecvExp: []time.Duration{0, 2 * sec}},
+		"z":  {NCtx: 2, QLen: []int{0, 1}, RecvExp: []time.Duration{0, 2 * sec}},
+	}
+	data, err := os.ReadFile(path)
+	if err != nil {
+		panic(err)
+	}
+	var all []subCfg
+	for _, ln := range strings.Split(string(data), "\n") {
+		if strings.TrimSpace(ln) == "" {
+			continue
+		}
+		var x struct {
+			Opt   string   `json:"opt"`
+			Steps []string `json:"steps"`
+		}
+		if err := json.Unmarshal([]byte(ln), &x); err != nil {
+			panic(err)
+		}
+		c, ok := mixes[x.Opt]
+		if !ok {
+			panic("unknown option mix " + x.Opt)
+		}
+		c.Steps = x.Steps
+		all = append(all, c)
+	}
+	rng.Shuffle(len(all), func(i, j int) { all[i], all[j] = all[j], all[i] })
+	if n < len(all) {
+		all = all[:n]
+	}
+	return all
+}
+
 func TestSub(t *testing.T) {
 	out := newOut(t, "sub")
 	defer out.Close()
 	rng := rand.New(rand.NewSource(seed()))
+	if f := os.Getenv("VERIF_SCN_FILE"); f != "" {
+		for i, cfg := range subFromTLC(f, rng, count(400, 1000000)) {
+			if out.Stop() {
+				break
+			}
+			res := runSub(t, cfg)
+			out.Add(fmt.Sprintf("subscn-%d", i), subCfgEv(cfg), fmt.Sprint(cfg), res)
+		}
+		return
+	}
 	cfgs := subScripted()
 	if os.Getenv("VERIF_MIX") == "deadline" {
 		cfgs = subDeadline()
